@@ -479,3 +479,7 @@ Fixpoint stages_disp (sts : list stage) (D : disp) : list disp * disp :=
   | [] => ([], D)
   | st :: rest => let '(cs, D') := stages_disp rest (parent_disp_after st D) in (child_disp D :: cs, D')
   end.
+
+(* what the parent writes into the here-string pipe (core.rs): `let mut data = word.into_bytes(); data.push(b'\n'); write_all(&data)` --
+   the word followed by a newline, unconditionally (bytes as numbers) *)
+Definition herestring_payload (word : list nat) : list nat := word ++ [10].
